@@ -457,6 +457,7 @@ static std::string exec_line(World*& W, long lineno, const std::string& line) {
         else if (mode == "ignore") W->Symm->compute(true);
         else if (mode == "custom") W->Symm->compute(W->symmops);
         else throw std::runtime_error("runner: bad symm mode");
+        if (W->repeat) { if (mode == "custom") W->Symm->compute(W->symmops); else W->Symm->compute(mode == "ignore"); }
         const std::vector<boost::shared_ptr<Operator> >& acc = W->Symm->getOperations();
         J.kvi("naccepted", acc.size());
         J.kvraw("accepted", jlist(acc.begin(), acc.end(), [](const boost::shared_ptr<Operator>& p) { return joperator(*p); }));
@@ -465,6 +466,7 @@ static std::string exec_line(World*& W, long lineno, const std::string& line) {
     if (cmd == "states") {
         W->S.reset(new StatesClassification(W->ic(), W->sy()));
         W->S->compute();
+        if (W->repeat) W->S->compute();
         J.kvi("nblocks", int(W->S->NumberOfBlocks())); J.kvi("nstates", W->S->getNumberOfStates()); return J.done();
     }
     if (cmd == "blocks") {
@@ -629,8 +631,12 @@ static std::string exec_line(World*& W, long lineno, const std::string& line) {
         std::unique_ptr<GreensFunction> own;
         if (src == "gfc") {
             if (!W->GFC) throw std::runtime_error("runner: no gfc");
+            bool listed = W->GFC->isInContainer(i, j) && W->GFC->isInContainer(IndexCombination2(i, j));
+            J.kvi("listed", listed ? 1 : 0);
             G = &(*W->GFC)(i, j);
-            G->prepare(); G->compute();   // no-ops for elements computed in bulk; needed for on-demand ones
+            // an element the bulk prepareAll()/computeAll() holds is read as it is; only an element created on demand
+            // by this lookup is prepared and computed here
+            if (!listed) { G->prepare(); G->compute(); }
         } else {
             own.reset(new GreensFunction(W->s(), W->h(), W->c_of(src, i), W->cdag_of(src, j), W->dm()));
             own->prepare(); own->compute(); G = own.get();
